@@ -7,7 +7,7 @@ import warnings
 
 import numpy as np
 
-from hyverif.core import digest, same_result
+from hyverif.core import digest, same_result, scalar_forms
 
 ID = "C08"
 SHARDS = {"quick": 8, "thorough": 16}
@@ -219,6 +219,21 @@ def run_agg_case(ctx, case):
     ctx.presentations("aggregate", lambda i_, v_: du.aggregate(i_, v_, operator=op,
                                                                maxnan=maxnan),
                       [idx.astype(np.int32), v], out, case, prng, n=1)
+    # the options as numpy scalars / 0-d arrays
+    k = int(prng.integers(0, 4))
+    ctx.tag("scalar-forms")
+    ctx.api("aggregate")
+    try:
+        osf = du.aggregate(idx.astype(np.int32), v.copy(), operator=scalar_forms(op, k),
+                           maxnan=scalar_forms(maxnan, k + 1))
+        ctx.check("agg.scalar-forms", same_result(osf, out),
+                  "aggregate|result-depends-on-scalar-type-of-options", case,
+                  lambda: {"operator": repr(scalar_forms(op, k)),
+                           "maxnan": repr(scalar_forms(maxnan, k + 1))})
+    except Exception as e:
+        ctx.check("agg.scalar-forms", False, "aggregate|raises-on-numpy-scalar-option",
+                  case, {"exc": repr(e), "operator": repr(scalar_forms(op, k)),
+                         "maxnan": repr(scalar_forms(maxnan, k + 1))})
     if prng.random() < 0.3:
         ctx.tag("index:int64")
         ctx.api("aggregate")
